@@ -116,6 +116,7 @@ pub fn run_scenario(sc: &Scenario) -> Judged {
                     j.probes.add("prefix_nodes_total", st.searches[..first_suffix_search.unwrap_or(st.searches.len())].iter().map(|s| s.nodes).sum::<u64>());
                 }
                 j.probes.add("prefix_contained_interrupted_search", st.searches.iter().any(|s| s.first_expired_read.is_some()) as u64);
+                j.probes.max("max_distinct_positions_cached_by_one_process", st.tt_new_keys);
             }
         }
         match &rep.outcome {
@@ -301,15 +302,44 @@ pub fn generate_huge(seed: u64) -> Scenario {
     let (p0, _) = interpret_position(&format!("position startpos moves {}", open)).unwrap();
     let (ms, _) = gen::playout(&mut rng, &p0, 2, 0);
     let m = gen::moves_uci(&ms);
+    let d = 7;
     Scenario {
-        prefix: vec![],
+        // a small game first, so that the large searches come after a ucinewgame and are
+        // compared with a fresh process too (whatever a new game sets up - table sizes,
+        // defaults - must be what a process starts with)
+        prefix: vec!["position startpos".to_string(), "go depth 3".to_string()],
         suffix: vec![
             format!("position startpos moves {}", open),
-            "go depth 7".to_string(),
+            format!("go depth {}", d),
             format!("position startpos moves {} {}", open, m.join(" ")),
-            "go depth 7".to_string(),
+            format!("go depth {}", d),
         ],
         key_seeds: vec![rng.next_u64(), rng.next_u64()],
+        forced: vec![],
+        real_binary: false,
+        node_cap: 30_000_000,
+    }
+}
+
+/// Eleven depth-7 searches of quiet opening positions in one game after a ucinewgame (more
+/// than half a million distinct positions cached): beyond what a 16 MB table holds. One per
+/// quick batch, fifteen per thorough batch.
+pub fn generate_giant(seed: u64) -> Scenario {
+    let mut rng = Rng::new(seed);
+    // quiet opening positions: the largest number of distinct cached positions per node
+    let mut opens = vec![
+        "e2e4 e7e5", "d2d4 d7d5", "e2e4 c7c5", "e2e4 e7e6", "d2d4 g8f6", "c2c4 e7e5", "g1f3 d7d5", "e2e4 c7c6", "d2d4 e7e6", "c2c4 g8f6", "g1f3 g8f6", "e2e4 d7d6", "b2b3 e7e5", "g2g3 d7d5",
+    ];
+    rng.shuffle(&mut opens);
+    let mut suffix = vec![];
+    for o in opens.iter().take(11) {
+        suffix.push(format!("position startpos moves {}", o));
+        suffix.push("go depth 7".to_string());
+    }
+    Scenario {
+        prefix: vec!["position startpos".to_string(), "go depth 3".to_string()],
+        suffix,
+        key_seeds: vec![rng.next_u64()],
         forced: vec![],
         real_binary: false,
         node_cap: 30_000_000,
@@ -510,12 +540,13 @@ pub fn run(ctx: &Ctx) -> i32 {
         let big = i % 40 == 7;
         // one sim per quick batch (fifteen per thorough batch) is huge
         let huge = i % 1300 == 3;
-        let sc = if huge { generate_huge(seed) } else { generate(seed, big) };
-        if huge {
-            // (counted below with the probes)
-        }
+        let giant = i % 1300 == 5;
+        let sc = if giant { generate_giant(seed) } else if huge { generate_huge(seed) } else { generate(seed, big) };
         let j = run_scenario(&sc);
         let mut res = SimResult::default();
+        if giant {
+            res.probes.add("giant_scenarios_eleven_depth7_searches_after_ucinewgame", 1);
+        }
         res.evaluations = j.evaluations;
         res.distinct.push(hash_str(&sc.to_json().to_string()));
         res.probes.merge(&j.probes);
